@@ -9,6 +9,12 @@ Decided by (lean/TallyVerif/Props/C14.lean, model lean/TallyVerif/Model/Migrate.
   date_range_equiv / date_range_preserved / key_le_iff_chronological / range_across_years_holds_in_both
                          the condition generated for [date:A..B] holds exactly on A ≤ d ≤ B, for every pair of ends (§7)
   + the counterexample theorems for the pinned converter (D14a, D14b) and for relative dates (D14c).
+  FROM THE FILE TEXT (§8 of Props/C14.lean, model lean/TallyVerif/Model/Legacy.lean = parse_pattern_with_modifiers + load_merchant_rules):
+  modifier_regexes_as_modelled   the regular expressions / flags / order regenerated from modifier_parser.py = the table the scanners implement
+  parse_blocks / parse_render / parse_render_canonical / blanks_insensitive / parse_shape / parse_ok_prefix / parse_error_local
+  comment_lines_inert(_text) / crlf_is_lf / load_written_table / load_written_std / row_local / moderr_row_keeps_cell
+  migration_preserves_from_file  the classification theorem for every file text the loader accepts
+  (streams, oracles and generators of this part: harness/props/legacy_loader.py)
 
 Tie (every run, on the tree under test):
   pyUnescape  vs CPython literal decoding (tokenize + ast.literal_eval), exhaustive over `\\x` for printable x,
@@ -50,8 +56,9 @@ import tokenize
 import warnings
 from fractions import Fraction
 
-from .. import common
+from .. import common, regen
 from ..gen import rules as G
+from . import legacy_loader as LL
 from .rules_common import Budget, jtxn, untxn
 
 REQUIRED = ('for every CSV rule file the loader accepts, the generated merchants.rules loads without error and '
@@ -1378,6 +1385,11 @@ EXCLUDED_POINTS = [
 
 # ------------------------------------------------------------------------------------------------ the check
 
+# obligations whose failure points at the loader / modifier-parser side (model Legacy.*): theorem names of §8, the translator, the streams
+LEGACY_OBLIGATION_MARKS = ('Legacy.', 'legacy-loader', 'modifier_tables', 'modifier_regexes_as_modelled', 'parse_blocks', 'parse_render',
+                           'blanks_insensitive', 'parse_shape', 'parse_ok_prefix', 'parse_error_local', 'comment_line', 'crlf_is_lf',
+                           'load_written', 'row_local', 'moderr_row_keeps_cell', 'migration_preserves_from_file', 're-IGNORECASE')
+
 def gen_cases(r, n, corners=True, focus=False):
     out = []
     for i in range(n):
@@ -1480,13 +1492,19 @@ def nontrivial(obs_legacy, case):
 
 def run(ctx):
     warnings.simplefilter('ignore', SyntaxWarning)
-    lo = common.lean_phase(ctx, 'TallyVerif.Props.C14')
+    lo = common.lean_phase(ctx, 'TallyVerif.Props.C14', regen.regen_modifier_tables)   # noqa: F841
     r = ctx.rng
 
     # ---- replay
     if ctx.replay:
         rp = json.loads(common.read(ctx.replay))
         ce = rp.get('counterexample') or {}
+        if ce.get('legacy_oracle'):
+            with Scratch() as b:
+                pf = LL.replay(ce, b)
+            print(f'[{ctx.prop}] replay: {"still fails" if pf else "passes now"}')
+            common.conclude(ctx, [pf] if pf else [], classify=classify, required=REQUIRED)
+            return ctx.finish()
         if 'csv_text' not in ce:
             print(f'[{ctx.prop}] replay file carries no counterexample (broken-obligation replay): re-running the full check')
             ctx.replay = None
@@ -1593,10 +1611,16 @@ def run(ctx):
             except Exception as e:
                 ex[name] = {'raised': type(e).__name__}
         ctx.notes['excluded_points_outside_the_generator (observed, not verdicts)'] = ex
+        # ---- the legacy CSV loader and the modifier text parser (drawn LAST from ctx.rng: the streams above are unchanged)
+        legacy_fails, legacy_ev, legacy_nontrivial = LL.run_streams(ctx, r, b)
+        prop_fail += legacy_fails
+        for pf in legacy_fails:
+            classes[pf['class']] = classes.get(pf['class'], 0) + 1
+        evaluations += legacy_ev
 
     ctx.cov['evaluations'] = evaluations
     ctx.cov['traces_validated_against_impl'] = evaluations
-    ctx.cov['distinct_nontrivial'] = len(nontriv)
+    ctx.cov['distinct_nontrivial'] = len(nontriv) + legacy_nontrivial
     ctx.cov['rule'] = ('generated CSV rule files (1–6 rows; patterns with \\b \\d \\s anchors, alternation, groups, back-references, look-ahead/behind, '
                        'quotes, brackets, \\\\, \\x41, \\101, \\u004f, \\N{…}, invalid regexes; every modifier form alone and combined, with spaces, '
                        'invalid modifiers; pipe tags incl. {field.x}; comments, blank lines, 4/5 columns) × transactions on the modifier '
@@ -1629,11 +1653,25 @@ def run(ctx):
                         'transaction per PROBE DATE: the 1st, 15th and last day of every month from the month before the range to the '
                         'month after it, Jan 1 / Dec 31 of every touched year and of the years just outside, each end ±1 day; counts: '
                         + json.dumps(cc))
+    ctx.cov['rule'] += ('; ALSO (legacy loader / modifier parser, harness/props/legacy_loader.py): pattern cells spelled from structured '
+                        'truth (every modifier form, blanks of all 29 \\s kinds, ASCII and non-ASCII decimal digits, invalid blocks) and hostile '
+                        'cells (mutations, unclosed / nested / swallowed blocks, ] inside, upper-case keywords, look-alike blanks, 4300+ digit '
+                        'numbers); rule files written by csv.writer (LF / CRLF / CR, any column order, extra / missing / duplicated columns) and '
+                        'hostile files (BOM, short / long rows, quoted cells with line breaks and comment-looking continuation lines, '
+                        'unterminated quotes, header damage, byte-level mutations); non-trivial there = a cell with conditions or a '
+                        'ModifierParseError, a file with two or more rules; counts: ' + json.dumps(ctx.notes.get('legacy_loader_streams', {})))
     for case in cases[len(WITNESSES):len(WITNESSES) + 3]:
         ctx.sample({'csv': render_csv(case), 'txn': jtxn(case['txn'])})
 
     def search():
         out = []
+        legacy_broken = [o for o in ctx.broken() if any(k in o['name'] for k in LEGACY_OBLIGATION_MARKS)]
+        if legacy_broken:
+            # the loader / parser side is what no longer checks: its implementation-only oracles first (bigger budget)
+            with Scratch() as b2:
+                out = LL.search(ctx, r, b2)
+            if out:
+                return out
         with Scratch() as b2:
             # half of the cases from the focused classes: runs of rows sharing their outputs with group-structured patterns,
             # many-digit thresholds with transactions on their precision probes
@@ -1655,14 +1693,19 @@ def run(ctx):
 
     # the fixed witnesses first (D14a, D14b, D14c, …), then the smallest generated failing inputs
     order = {name: i for i, (name, _, _) in enumerate(WITNESSES)}
-    prop_fail.sort(key=lambda pf: (order.get(pf.get('witness'), len(order)), len(pf['csv_text'])))
+    prop_fail.sort(key=lambda pf: (order.get(pf.get('witness'), len(order)), len(pf.get('csv_text') or pf.get('file_text') or pf.get('cell') or '')))
     common.conclude(ctx, prop_fail, classify=classify, search=search, required=REQUIRED)
     return ctx.finish(extra_trusted=[
         'CPython string-literal decoding is MODELLED (Migrate.pyUnescape) and compared with tokenize+ast.literal_eval on every run; \\N{…}, '
         'surrogates and backslash-newline are declined by the model (none of them is produced by the repaired escaping)',
         're (search with IGNORECASE), str.upper, str.lower, date.today are parameters (`Oracles`); H_upper ("case-insensitive search is '
         'unchanged by upper-casing the subject") and H_empty are hypotheses of per_rule_agree / migration_preserves, tested on every generated pair',
-        'parse_pattern_with_modifiers (the CSV modifier PARSER) and csv.DictReader are taken from the implementation: the model starts from the '
-        'tuples load_merchant_rules returns; float(repr(v)) == v and date.fromisoformat(d.isoformat()) == d (CPython)',
+        'parse_pattern_with_modifiers and load_merchant_rules are MODELLED (Legacy.parsePattern / Legacy.loadRules) and compared with the code '
+        'on generated cells and files every run; the migration streams above still start from the tuples the implementation loaded; '
+        'float(repr(v)) == v and date.fromisoformat(d.isoformat()) == d (CPython)',
+        'parameters of the loader model (Legacy.Oracles): float() of a captured [\\d.]+ text, the decimal value of non-ASCII Nd characters, '
+        'strptime on date texts with a non-ASCII digit, sys.get_int_max_str_digits(); hypothesis H_space (no \\s character is a decimal '
+        'digit) and the case-insensitive letters of last…days are compared with CPython over all code points every run; csv fields longer '
+        'than csv.field_size_limit() (131072) and undecodable bytes are outside the model',
         'amounts are exact integers in a common power-of-two unit: rounding inside the float subtraction amount - v is modelled away',
         'the expression evaluator is modelled only on the fragment the converter generates (regex(), comparisons on amount/date/month, abs, and)'])
